@@ -359,3 +359,42 @@ def const_compare(prog, module, test, cls=None):
             return None
         return (unparse(l), 'in' if isinstance(op, ast.In) else 'notin', vals)
     return None
+
+
+# ------------------------------------------------------------------------------
+#
+def reaching_defs(g, name, node_id):
+    """cfg nodes that assign the plain name `name` and reach node_id without
+    an intervening re-assignment; returns [(cfg node, value expr or None)]
+    (value is None for tuple / loop / augmented bindings)"""
+    defs = []
+    for n in g.nodes:
+        if n.ast is None:
+            continue
+        if n.kind == 'stmt' and isinstance(n.ast, (ast.Assign, ast.AnnAssign,
+                                                   ast.AugAssign)):
+            tg = n.ast.targets if isinstance(n.ast, ast.Assign) \
+                else [n.ast.target]
+            for t in tg:
+                if isinstance(t, ast.Name) and t.id == name:
+                    defs.append((n, n.ast.value if isinstance(
+                        n.ast, (ast.Assign, ast.AnnAssign)) else None))
+                elif isinstance(t, (ast.Tuple, ast.List)) and \
+                        name in stores_in_target(t):
+                    defs.append((n, None))
+        elif n.kind == 'for' and name in stores_in_target(n.ast.target):
+            defs.append((n, None))
+    ids = {n.id for n, v in defs}
+    out = []
+    for n, v in defs:
+        r = set()
+        skip = ids - {node_id}
+        for e in g.succ[n.id]:
+            if e.label != 'exc':
+                if e.dst == node_id:
+                    r.add(node_id)
+                elif e.dst not in skip:
+                    r |= g.reachable(e.dst, skip_nodes=skip)
+        if node_id in r:
+            out.append((n, v))
+    return out
